@@ -504,6 +504,17 @@ func c08VerifyBeforeWrite(c *Ctx, r *Result) {
 						why = fmt.Sprintf("%s does not both re-parse the text and compare the trees (re-parses: %v, compares: %v)", c.FuncKey(callee), reparses, compares)
 						return
 					}
+					// the tree handed to the comparison is the tree of the file: on this path it is the
+					// result of parsing the bytes read from the file, not of some formatted text
+					for _, a := range call.Call.Args {
+						if namedOf(a.Type()) != node {
+							continue
+						}
+						if src := treeOrigin(st, a); src != "" {
+							why = "the tree compared with the formatted text is not the tree of the file: it is " + src
+							return
+						}
+					}
 					// its error result must be nil here
 					var ev ssa.Value = call
 					if callee.Signature.Results().Len() > 1 {
@@ -651,4 +662,44 @@ func c08CompareCoverage(c *Ctx, r *Result) {
 		}
 	}
 	r.Floor("R08e", n, 1)
+}
+
+
+// treeOrigin: "" when the tree value is, on this path, the result of parser.Parse* applied to text
+// converted from the result of a file read; otherwise a description of what it is.
+func treeOrigin(st *PState, v ssa.Value) string {
+	t := st.canon(v)
+	ex, ok := t.(*ssa.Extract)
+	if !ok || ex.Index != 0 {
+		return accessPath(v) + " (not the result of a parse)"
+	}
+	call, ok := ex.Tuple.(*ssa.Call)
+	if !ok {
+		return accessPath(v) + " (not the result of a parse)"
+	}
+	n := callName(call)
+	if !(strings.HasSuffix(n, "parser.Parse") || strings.HasSuffix(n, "parser.ParseWithRuntime")) || len(call.Call.Args) < 2 {
+		return "the result of " + n
+	}
+	src := st.canon(call.Call.Args[1])
+	for i := 0; i < 6; i++ {
+		switch x := src.(type) {
+		case *ssa.Convert:
+			src = st.canon(x.X)
+			continue
+		case *ssa.ChangeType:
+			src = st.canon(x.X)
+			continue
+		}
+		break
+	}
+	if e2, ok := src.(*ssa.Extract); ok && e2.Index == 0 {
+		if rc, ok := e2.Tuple.(*ssa.Call); ok {
+			switch callName(rc) {
+			case "io/ioutil.ReadFile", "os.ReadFile", "io.ReadAll", "io/ioutil.ReadAll":
+				return ""
+			}
+		}
+	}
+	return "parsed from " + accessPath(call.Call.Args[1]) + ", which is not the content read from the file"
 }
